@@ -378,7 +378,9 @@ static Scenario draw(uint64_t seed)
   sc.nr      = 1 + (int)(r() % 4);
   sc.nf      = (int)(r() % 3);
   sc.ns      = 1 + (int)(r() % 2);
-  sc.lat     = (int)(r() % 3);
+  sc.lat     = (int)(r() % 4);
+  if (sc.lat == 3)
+    sc.lat = 8;  // a slow exporter: many scheduling points inside Export
   sc.fto     = (int)(r() % 4);
   sc.post    = (int)(r() % 2);
   sc.freeze  = (r() % 8) == 0;
